@@ -76,14 +76,17 @@ EffectClause(r, stage, want) ==
   ELSE IF want = 401 /\ r.ep = "rtw" THEN "C30_WriteEnabler_effect"
   ELSE "C31_http_rejected_changed_state"
 
-VReq(e) ==
-  LET r == NormReq(e.r)
-      b == NormBody(e.body)
+VReq1(e, r) ==
+  LET b == NormBody(e.body)
       alloc == IF r.ep = "alloc" /\ b.k = "alloc" THEN b.allocated ELSE {}
       stage == Stage(H, r)
       o == HandleWith(H, r, alloc)
       want == o.out.status
-      statusok == e.status = want \/ (stage = "secrets" /\ want = 500 /\ e.status = 400)
+      \* which 4xx code a refusal carries is not part of C30: any client-error status is a refusal
+      \* (and the unhandled-decoding 500 of the secrets stage, which does nothing either)
+      statusok == \/ e.status = want
+                  \/ (stage \in {"swissnum", "secrets"} /\ want >= 400 /\ e.status \in 400..499)
+                  \/ (stage = "secrets" /\ want = 500 /\ e.status = 400)
       hasobs == "obs" \in DOMAIN e
   IN IF ~statusok THEN V(StatusClause(r, stage, want, e.status), H)
      ELSE IF ~SwissnumPresented(r.auth) /\ (e.hasdata \/ b # NoBody) THEN V("C30_NoAuthNoData", H)
@@ -103,6 +106,42 @@ VReq(e) ==
            ELSE IF e.d.same /\ ObsProj(o.next.S, r.si) # ObsProj(H.S, r.si) THEN V("C31_agree_state_not_changed", H)
            ELSE V("", o.next))
      ELSE V("", o.next)
+
+\* The statement speaks of requests "without the correct swissnum".  A request that presents the
+\* correct swissnum TOGETHER WITH other Authorization values is on neither side: the server may
+\* serve it (then it is judged as an authorised request) or refuse it (then nothing may happen).
+AuthAmbiguous(auth) == SwissnumPresented(auth) /\ auth # <<"correct">>
+\* Likewise for the secrets: the statement requires requests with *missing or malformed* secrets to be
+\* refused.  A request whose headers are all well formed and cover the required kinds, but which carries
+\* a kind twice with different values or a kind the route does not need, is on neither side: it may be
+\* refused (nothing may happen) or served according to any one of the presented values.
+WellFormedHdrs(h) == \A i \in 1..Len(h) : h[i].val \notin {"bad", "nonutf8"} /\ h[i].kind \in Kinds
+SecretsAmbiguous(h, req) ==
+  /\ WellFormedHdrs(h) /\ req \subseteq HdrKinds(h)
+  /\ (HdrKinds(h) # req \/ \E k \in req : Cardinality(Presented(h, k)) > 1)
+\* canonical header lists: one header per required kind, with one of the values presented for it
+RECURSIVE CanonHdrs(_, _)
+CanonHdrs(h, ks) ==
+  IF ks = {} THEN {<<>>}
+  ELSE LET k == CHOOSE x \in ks : TRUE IN
+       {<<[kind |-> k, val |-> v]>> \o rest : v \in Presented(h, k), rest \in CanonHdrs(h, ks \ {k})}
+Refused(e, b) == e.status \in 400..499 /\ e.same /\ b = NoBody /\ ~e.hasdata
+VReq2(e, r) ==
+  LET b == NormBody(e.body) req == Required(r.ep) IN
+  IF SecretsAmbiguous(r.hdrs, req)
+    THEN (IF Refused(e, b) THEN V("", H)
+          ELSE LET cands == {[r EXCEPT !.hdrs = hh] : hh \in CanonHdrs(r.hdrs, req)}
+                   okc == {c \in cands : VReq1(e, c).c = ""}
+               IN IF okc # {} THEN VReq1(e, CHOOSE c \in okc : TRUE)
+                  ELSE VReq1(e, CHOOSE c \in cands : TRUE))
+    ELSE VReq1(e, r)
+VReq(e) ==
+  LET r == NormReq(e.r)
+      b == NormBody(e.body)
+  IN IF AuthAmbiguous(r.auth)
+       THEN (IF Refused(e, b) THEN V("", H)
+             ELSE VReq2(e, [r EXCEPT !.auth = <<"correct">>]))
+       ELSE VReq2(e, r)
 
 VAdvance(e) ==
   LET T == HAdvance(H, e.dt) IN
